@@ -435,7 +435,7 @@ pub fn check(pid: &str, seed: u64) -> Value {
                           }
                       }
                   }
-                  for (k, area) in (if pid == "C04" { vec![(0.5f32, 2.5f32), (1.0, 12.345), (0.25, 0.004), (0.0, 0.015)] } else { vec![(0.0, 1.0)] }) {
+                  for (k, area) in (if pid == "C04" { vec![(0.5f32, 2.5f32), (1.0, 12.345), (0.25, 0.004), (0.0, 0.015)] } else if pid == "C13" { vec![(0.0f32, 1.0f32), (0.0, 2.5), (0.0, 40.0)] } else { vec![(0.0, 1.0)] }) {
                     evals += 1;
                     if let Ok(ep) = run(&tcase(t, k, area, lm)) {
                         nontrivial += 1;
